@@ -91,6 +91,27 @@ pub fn oracle(c: &Corpus, _seed: u64, _tier: &str) -> Vec<Report> {
             }
         }
     }
+    // hand-built statements (AST-first generator, every Statement variant with random field
+    // combinations the parser may never produce): try_from must answer, never panic — its error
+    // path formats the rejected statement
+    if std::path::Path::new(&format!("{}/schema.json", gen_dir())).exists() {
+        let mut g = crate::astgen::AstGen::load();
+        g.realistic = true;
+        g.strict = true;
+        let mut errs = vec![];
+        for st in g.statements(3000, 777, &mut errs) {
+            r.evaluations += 1;
+            let is_ct = matches!(st, Statement::CreateTable(_));
+            let label = format!("generated {}", variant_of(&st));
+            // only statements whose own Display is defined (a panic there is C02's, not the builder's)
+            let st2 = st.clone();
+            match guard(move || CreateTableBuilder::try_from(st2).map(|b| b.build())) {
+                G::Val(Ok(back)) => { if !is_ct { r.fail(format!("{}/accepted-by-builder", variant_of(&st)), "generic", o, &label, String::new()); } else if back != st { r.fail("CreateTable/roundtrip-differs".into(), "generic", o, &label, String::new()); } else { r.count("generated-roundtrip-ok"); } }
+                G::Val(Err(_)) => { if is_ct { r.fail("CreateTable/builder-rejects".into(), "generic", o, &label, String::new()); } else { r.count("generated-other-kind-err"); } }
+                G::Panic(m) => r.panic("generic", o, &format!("{label}: {}", trunc(&format!("{st:?}"), 6000)), m),
+            }
+        }
+    }
     r.distinct_nontrivial = tables.len() as u64;
     if let Some(t) = tables.first() { r.sample(serde_json::json!({"create_table": Statement::CreateTable(t.clone()).to_string()})); }
 
